@@ -16,6 +16,7 @@ from __future__ import annotations
 
 import collections
 import copy
+import gc
 import hashlib
 import math
 import os
@@ -1489,37 +1490,43 @@ def _send(fd, obj):
         data = data[n:]
 
 
-def _recv_all(fd, deadline_s):
-    """Records streamed by the child until EOF; (records, timed_out)."""
+def _recv_all(fd, deadline_s, first_deadline_s):
+    """Records streamed by the child until EOF; (records, timed_out).  The first record
+    (the child's "ready" after its warm-up) may take first_deadline_s, later ones deadline_s."""
     import select
 
     buf = b""
     recs = []
     last = time.time()
     while True:
-        r, _, _ = select.select([fd], [], [], 5.0)
+        r, _, _ = select.select([fd], [], [], 1.0)
         if r:
             chunk = os.read(fd, 1 << 20)
             if not chunk:
                 return recs, False
             buf += chunk
-            last = time.time()
             while len(buf) >= 8:
                 n = int.from_bytes(buf[:8], "little")
                 if len(buf) < 8 + n:
                     break
                 recs.append(pickle.loads(buf[8 : 8 + n]))
                 buf = buf[8 + n :]
-        elif time.time() - last > deadline_s:
+                last = time.time()
+        elif time.time() - last > (deadline_s if recs else first_deadline_s):
             return recs, True
 
 
-def isolated_each(fn, args_list, deadline_s=180):
+READY = "__ready__"
+
+
+def isolated_each(fn, args_list, deadline_s=180, warmup=None):
     """fn(*args) for each args in a forked child process that streams its results back.
     Loading a damaged pickle can take the interpreter down (observed: 'SystemError:
     deallocated bytearray object has exported buffers' followed by the death of the
-    process) or hang; the worker must survive that.  -> list of ("ok", result) |
-    ("crashed", wait status) | ("hung", None), one per args."""
+    process) or run for minutes; the worker must survive that.  The child first runs
+    `warmup` (a forked process is slow until it has touched -- copied -- the pages it
+    needs; that must not count against the job's deadline) and reports ready.
+    -> list of ("ok", result) | ("crashed", wait status) | ("hung", None), one per args."""
     out = []
     i = 0
     while i < len(args_list):
@@ -1528,11 +1535,14 @@ def isolated_each(fn, args_list, deadline_s=180):
         if pid == 0:  # child
             code = 0
             try:
-                if os.environ.get("C20_DEBUG_CHILD"):
-                    import faulthandler
-
-                    faulthandler.dump_traceback_later(6, repeat=False)
+                # keep the cyclic GC away from the inherited heap: a full collection in a
+                # forked process writes to every object header, i.e. copies the whole heap
+                # page by page (measured: a 0.02 s parse took 5-15 s in the child)
+                gc.freeze()
                 os.close(rfd)
+                if warmup is not None:
+                    warmup()
+                _send(wfd, READY)
                 for args in args_list[i:]:
                     try:
                         rec = fn(*args)
@@ -1544,7 +1554,7 @@ def isolated_each(fn, args_list, deadline_s=180):
             finally:
                 os._exit(code)
         os.close(wfd)
-        recs, timed_out = _recv_all(rfd, deadline_s)
+        recs, timed_out = _recv_all(rfd, deadline_s, 300)
         os.close(rfd)
         if timed_out:
             try:
@@ -1552,6 +1562,9 @@ def isolated_each(fn, args_list, deadline_s=180):
             except ProcessLookupError:
                 pass
         _, status = os.waitpid(pid, 0)
+        if not recs or recs[0] != READY:
+            raise HarnessError(f"isolated child did not get through its warm-up (status {status}, timed out {timed_out})")
+        recs = recs[1:]
         for r in recs:
             if isinstance(r, tuple) and r and r[0] == "__harness_exception__":
                 raise HarnessError(f"exception in isolated harness code: {r[1]}")
@@ -1562,6 +1575,19 @@ def isolated_each(fn, args_list, deadline_s=180):
             out.append(("hung", None) if timed_out else ("crashed", status))
             i += 1
     return out
+
+
+def _warm(rel, mp, ca, good):
+    """Warm-up of a sweep child: one load from the intact cache and one parse."""
+    from scenic.domains.driving.roads import Network
+
+    ca.write_bytes(good)
+    with warnings.catch_warnings():
+        warnings.simplefilter("ignore")
+        net = Network.fromFile(str(mp), useCache=True, writeCache=False, **cm.OPTS["A"])
+        net_diff(REFS[rel], (0, "A"), net)
+        net = Network.fromFile(str(mp), useCache=False, writeCache=False, **cm.OPTS["A"])
+        fingerprint(net)
 
 
 def sweep_item(item):
@@ -1592,7 +1618,7 @@ def sweep_item(item):
             b = bytearray(good)
             b[pos] = (b[pos] + 1) % 256
             jobs.append((rel, mp, ca, bytes(b), pos))
-        for job, (how, res) in zip(jobs, isolated_each(judge_damaged_cache, jobs, deadline_s=LOAD_DEADLINE_S)):
+        for job, (how, res) in zip(jobs, isolated_each(judge_damaged_cache, jobs, deadline_s=LOAD_DEADLINE_S, warmup=lambda: _warm(rel, mp, ca, good))):
             pos = job[4]
             zone = "header" if pos < cm.HEADER else "payload"
             if how == "ok":
@@ -1811,7 +1837,8 @@ def _run(ctx, maps, empty, P, rundir):
     install_parse_counter()
     t0 = time.time()
     prepare_refs(CACHE_MAP, rundir)
-    prepare_refs(SWEEP_MAP, rundir)
+    if SWEEP_MAP not in REFS:
+        prepare_refs(SWEEP_MAP, rundir)
     t_refs = time.time() - t0
     graph_items, cache_items = plan(ctx.tier, maps)
 
@@ -1828,9 +1855,13 @@ def _run(ctx, maps, empty, P, rundir):
     shutil.rmtree(d)
     # every header byte (judged) + payload bytes by the tier's stride (observed)
     positions = list(range(0, cm.HEADER)) + ctx.rotate(list(range(cm.HEADER, size + 64, P["sweep_stride"])))
-    chunk = max(1, len(positions) // 48)
+    chunk = max(8, len(positions) // (3 * max(1, ctx.workers)))  # one fork (~1 s) per chunk
     sweep_items = [("sweep", SWEEP_MAP, positions[i : i + chunk]) for i in range(0, len(positions), chunk)]
 
+    # workers are forked from here: freeze the heap so that their garbage collections do not
+    # traverse (and thereby copy, page by page) everything inherited from this process
+    gc.collect()
+    gc.freeze()
     # interleave: graph items (big first), cache subtrees, sweep chunks
     items = ctx.rotate(graph_items) + ctx.rotate(cache_items) + sweep_items
     # big graph items first regardless of rotation (pool packing); rotation changes ties
@@ -2017,7 +2048,18 @@ def replay(ctx, case):
             (d / "m.xodr").write_bytes(REFS[case["map"]]["contents"][(0, 0)])
             data = base64.b64decode(case["cache_b64"])
             zone = "header" if case["pos"] < cm.HEADER else "payload"
-            ((how, res),) = isolated_each(judge_damaged_cache, [(case["map"], d / "m.xodr", d / "m.snet", data, case["pos"])], deadline_s=LOAD_DEADLINE_S)
+            from scenic.domains.driving.roads import Network
+
+            with warnings.catch_warnings():
+                warnings.simplefilter("ignore")
+                Network.fromFile(str(d / "m.xodr"), **cm.OPTS["A"])
+            good = (d / "m.snet").read_bytes()
+            ((how, res),) = isolated_each(
+                judge_damaged_cache,
+                [(case["map"], d / "m.xodr", d / "m.snet", data, case["pos"])],
+                deadline_s=LOAD_DEADLINE_S,
+                warmup=lambda: _warm(case["map"], d / "m.xodr", d / "m.snet", good),
+            )
             if how == "ok":
                 if res[1] is not None:
                     ctx.violation(*res[1])
